@@ -625,6 +625,7 @@ func checkC16(c *Ctx) {
 	c.checkPayloadWhole("O8 payload-whole")
 	c.checkReadTransportWrite("O8 read-transport")
 	c.checkDecodedPayloadOwned("O8 decoded-payload-owned")
+	c.checkDecodedSizeGuards("O8 size-guards")
 }
 
 // checkM3ClientSend: sendEmitMetricBatchV2 = WriteMessageBegin(name, ONEWAY, seq) -> args.Write ->
